@@ -20,7 +20,12 @@ RULE = ('Well-typed terminating programs drawn from the typed generator G '
         'run-time error class and statement line) compared with the '
         'reference interpreter R; each program with an IF is judged a second '
         'time with its IF conditions negated (the skipped branches run).  '
-        'Non-trivial: accepted, R supports it, >= 3 '
+        'Plus a catalogue of run-time evaluations judged by R: every operator '
+        'x every pair of operand types x 8-10 boundary values per type held '
+        'in variables, unary operators, ABS / INT / CINT / CLNG, assignment '
+        'conversions between all numeric types, and the string built-ins '
+        'over boundary arguments (complete in the thorough tier, a seeded '
+        'sample of 1500 in quick).  Non-trivial: accepted, R supports it, >= 3 '
         'events and >= 2 of {procedure call, loop with >= 2 iterations, '
         'array or record access, implicit conversion, GOTO/GOSUB, run-time '
         'error outcome}.  Distinct by hash of (text, script).')
@@ -46,7 +51,7 @@ def configure(tier, avoid):
             'bounds': {'max_stmts': p.max_stmts, 'max_depth': p.max_depth,
                        'expr_depth': p.expr_depth, 'configs': [
                            X.cfg_name(c) for c in CONFIGS]},
-            'tick_budget': 100000, 'avoid': avoid}
+            'tick_budget': 100000, 'avoid': avoid, 'tier': tier}
 
 
 def setup_worker(cfg):
@@ -223,3 +228,168 @@ def shrink(failure, cfg):
             return {'bucket': bucket, 'detail': d,
                     'case': cases.encode_case(small, script, style)}
     return failure
+
+
+# ---------------------------------------------------------------------------
+# Run-time operator / built-in catalogue: every operator over every pair of
+# operand types and every numeric / string built-in R models, with boundary
+# values held in *variables* (so nothing is folded at compile time), judged by
+# R.  Thorough: complete; quick: a seeded sample.
+import itertools            # noqa: E402
+from qv import ast as A     # noqa: E402
+
+RT_VALS = {
+    '%': [0, 1, -1, 2, 3, 255, 32767, -32768],
+    '&': [0, 1, -1, 7, 32768, 65536, 2147483647, -2147483648],
+    '!': [0.0, 0.5, 1.5, 2.5, -0.5, -3.5, 0.10000000149011612, 1e10,
+          3.4028234663852886e+38, 16777216.0],
+    '#': [0.0, 0.5, 1.5, 2.5, -2.5, 0.1, 32767.5, 2147483647.5, 1e100,
+          1.7976931348623157e+308],
+}
+RT_BINOPS = ['+', '-', '*', '/', '\\', 'MOD', '^', '=', '<>', '<', '>', '<=',
+             '>=', 'AND', 'OR', 'XOR', 'EQV', 'IMP']
+RT_NUMFUNCS = ['ABS', 'INT', 'CINT', 'CLNG']
+RT_STRS = ['', 'a', 'abc', 'Hello, World', ' x ']
+RT_INTS = [-1, 0, 1, 2, 3, 12, 13, 255, 256, 32767]
+
+
+def _lit(t, v):
+    """Expression whose value is v (any sign) of type t."""
+    if t in '%&':
+        # always through a DOUBLE literal: -32768 / -2147483648 have no
+        # literal of their own type
+        e = A.Num('#', float(abs(v)), None)
+    else:
+        e = A.Num(t, abs(v), None)
+    if v < 0 or (isinstance(v, float) and str(v).startswith('-')):
+        e = A.Un('neg', e, e.t)
+    return e
+
+
+def _v(name):
+    return A.LV(name, [], [], name[-1])
+
+
+def runtime_items():
+    out = []
+    for lt, rt in itertools.product('%&!#', repeat=2):
+        for op in RT_BINOPS:
+            if op == '/' and '&' in (lt, rt):
+                continue            # agreed subset (SINGLE vs DOUBLE result)
+            if op == '^' and lt in '%&' and rt in '%&':
+                continue            # agreed subset
+            for a in RT_VALS[lt]:
+                for b in RT_VALS[rt]:
+                    out.append(('bin', op, lt, a, rt, b))
+    for t in '%&!#':
+        for a in RT_VALS[t]:
+            for op in ('neg', 'NOT', 'pos'):
+                out.append(('un', op, t, a))
+            for fn in RT_NUMFUNCS:
+                if fn == 'INT' and abs(a) > 2147483647:
+                    continue        # agreed subset
+                out.append(('fn', fn, t, a))
+            for tt in '%&!#':
+                out.append(('conv', tt, t, a))
+    for s_ in RT_STRS:
+        for n in RT_INTS:
+            for fn in ('LEFT$', 'SPACE$', 'CHR$', 'STRING$', 'MID2', 'MID3',
+                       'INSTR3'):
+                out.append(('sfn', fn, s_, n))
+        for fn in ('LEN', 'ASC', 'UCASE$', 'LCASE$', 'LTRIM$', 'VAL'):
+            out.append(('sfn1', fn, s_))
+        for s2 in RT_STRS:
+            out.append(('sfn2', 'INSTR', s_, s2))
+            for op in ('+', '=', '<', '>=', '<>'):
+                out.append(('sbin', op, s_, s2))
+    return out
+
+
+def runtime_program(item):
+    kind = item[0]
+    body = []
+    if kind == 'bin':
+        _, op, lt, a, rt, b = item
+        body = [A.Assign(_v('a' + lt), _lit(lt, a)),
+                A.Assign(_v('b' + rt), _lit(rt, b))]
+        rel = op in ('=', '<>', '<', '>', '<=', '>=')
+        e = A.Bin(op, _v('a' + lt), _v('b' + rt),
+                  '%' if rel else A.wider(lt, rt))
+    elif kind == 'un':
+        _, op, t, a = item
+        body = [A.Assign(_v('a' + t), _lit(t, a))]
+        e = A.Un(op, _v('a' + t), t)
+    elif kind == 'fn':
+        _, fn, t, a = item
+        body = [A.Assign(_v('a' + t), _lit(t, a))]
+        e = A.BCall(fn, [_v('a' + t)], {'CINT': '%', 'CLNG': '&'}.get(fn, t))
+    elif kind == 'conv':
+        _, tt, t, a = item
+        body = [A.Assign(_v('a' + t), _lit(t, a)),
+                A.Assign(_v('c' + tt), _v('a' + t))]
+        e = _v('c' + tt)
+    elif kind == 'sfn':
+        _, fn, s_, n = item
+        body = [A.Assign(_v('s$'), A.Str(s_)), A.Assign(_v('n%'), _lit('%', n))]
+        sv, nv = _v('s$'), _v('n%')
+        if fn == 'LEFT$':
+            e = A.Bin('+', A.BCall('LEFT$', [sv, nv], '$'), A.Str('|'), '$')
+        elif fn == 'SPACE$':
+            e = A.Bin('+', A.BCall('SPACE$', [nv], '$'), A.Str('|'), '$')
+        elif fn == 'CHR$':
+            e = A.BCall('ASC', [A.BCall('CHR$', [nv], '$')], '%')
+        elif fn == 'STRING$':
+            e = A.Bin('+', A.BCall('STRING$', [nv, A.Num('%', 65, '65')],
+                                   '$'), A.Str('|'), '$')
+        elif fn == 'MID2':
+            e = A.Bin('+', A.BCall('MID$', [sv, nv], '$'), A.Str('|'), '$')
+        elif fn == 'MID3':
+            e = A.Bin('+', A.BCall('MID$', [sv, A.Num('%', 2, '2'), nv],
+                                   '$'), A.Str('|'), '$')
+        else:
+            e = A.BCall('INSTR', [nv, sv, A.Str('l')], '%')
+    elif kind == 'sfn1':
+        _, fn, s_ = item
+        body = [A.Assign(_v('s$'), A.Str(s_))]
+        e = A.BCall(fn, [_v('s$')], '$' if fn.endswith('$') else
+                    ('#' if fn == 'VAL' else '%'))
+        if fn.endswith('$'):
+            e = A.Bin('+', e, A.Str('|'), '$')
+    elif kind == 'sfn2':
+        _, fn, s_, s2 = item
+        body = [A.Assign(_v('s$'), A.Str(s_)), A.Assign(_v('t$'), A.Str(s2))]
+        e = A.BCall('INSTR', [_v('s$'), _v('t$')], '%')
+    else:
+        _, op, s_, s2 = item
+        body = [A.Assign(_v('s$'), A.Str(s_)), A.Assign(_v('t$'), A.Str(s2))]
+        e = A.Bin(op, _v('s$'), _v('t$'), '$' if op == '+' else '%')
+    body.append(A.Print([A.Str('r'), ';', e]))
+    body.append(A.Print([A.Str('end')]))
+    return A.Program(body)
+
+
+def items(cfg):
+    out = runtime_items()
+    if cfg.get('tier', 'quick') == 'quick':
+        import random
+        from qv.runner import derive_seed
+        rng = random.Random(derive_seed(ID, cfg.get('seed', 1), 0, 'items'))
+        rng.shuffle(out)
+        out = out[:1500]
+    return out
+
+
+def check_item(item, cfg):
+    from qv.runner import digest
+    prog = runtime_program(tuple(item))
+    failures, info = judge(prog, {}, render.PLAIN, cfg)
+    fl = []
+    if failures:
+        enc = cases.encode_case(prog, {}, render.PLAIN)
+        fl = [{'bucket': 'catalogue:' + b, 'detail': dict(d, item=list(item)),
+               'case': enc} for b, d in failures]
+    return {'key': digest(info['text']),
+            'nontrivial': info['accepted'] and not info['inconclusive'],
+            'classes': ['catalogue:%s:%s' % (item[0], item[1]),
+                        'catalogue:ref:' + info['ref_outcome']],
+            'failures': fl, 'inconclusive': info['inconclusive']}
